@@ -653,7 +653,7 @@ func genC01(c *Ctx) {
 		c.Run("C01.assume_valid", Args(t), "C01.canonical", "", "fixed")
 		c.Run("C01.compact_sort", Args(t), "C01.canonical", "", "fixed")
 		c.Run("C01.twice", Args(t), "C01.const_same", "", "fixed")
-		c.Run("C01.compact_raw", Args(t), "C01.compact_raw", "", "fixed/compact-raw")
+		c.Run("C01.compact_raw", Args(t), "C01.compact_raw", "C01.prop.compact_safe", "fixed/compact-raw")
 		allVersions(t, "fixed")
 		c.Count("fixed texts")
 	}
@@ -700,7 +700,7 @@ func genC01(c *Ctx) {
 			c.Count("pairs: perturbed value")
 		}
 		c.Run("C01.assume_valid", Args(t2), "C01.canonical", "", "random/assume-valid")
-		c.Run("C01.compact_raw", Args(t1), "C01.compact_raw", "", "random/compact-raw")
+		c.Run("C01.compact_raw", Args(t1), "C01.compact_raw", "C01.prop.compact_safe", "random/compact-raw")
 		if i%4 == 0 {
 			c.Run("C01.compact_sort", Args(t1), "C01.canonical", "", "random/compact+sort")
 			c.Run("C01.twice", Args(t2), "C01.const_same", "", "random/twice")
@@ -743,7 +743,7 @@ func genC01(c *Ctx) {
 				m[p] = []byte(`{}[],:"\u0-.eE 1a`)[r.Intn(17)]
 			}
 			c.Run("C01.valid", [][]byte{m}, "C01.valid", "", "malformed/validity")
-			if string(c.Run("C01.compact_raw", [][]byte{m}, "C01.compact_raw", "", "malformed/compact-raw")) == "PANIC" {
+			if string(c.Run("C01.compact_raw", [][]byte{m}, "C01.compact_raw", "C01.prop.compact_safe", "malformed/compact-raw")) == "PANIC" {
 				c.Count("compact_raw: panics (malformed stream)")
 			}
 			if gjson.ValidBytes(m) && c01loneSurrogate(m) {
@@ -799,13 +799,13 @@ func genC01(c *Ctx) {
 		`"\uzzzz"`, `"\u@@@@"`, "\"\\u\x60\x60\x60\x60\"", "\"\\u\x00\x00\x00\x00\"", "\"\\u\xff\xff\xff\xff\"", `"\u000g"`, `"\u00G0"`, `"\u:;<="`, `"\uPQRS"`, `"\upqrs"`, `"\u 1 2"`, `"\u0 0 "`, `"\uD8@0\`, `"\uMH00x`,
 		`"\/`, `"\/"`, `"\"`, `"\""`, `"`, `""`, `"""`, `"a"-`, `"a"-0`, `{"a":-}`, `"-"`, `"\-`, "\x00-", "-\x00", "\x7f", "\xff-", "\"\xff\\", "\"\\\xff", "\"\\u\xff"}
 	for _, t := range rawFixed {
-		c.Run("C01.compact_raw", Args(t), "C01.compact_raw", "", "compact-raw/fixed")
+		c.Run("C01.compact_raw", Args(t), "C01.compact_raw", "C01.prop.compact_safe", "compact-raw/fixed")
 		c.Count("compact_raw: hand-picked ends of input")
 	}
 	// every truncation of texts that exercise all branches of compactUnicodeEscape
 	for _, t := range []string{`{"k\ud83d\ude00\u0007\u0022\u005c\u00e9\n\/":[-0,-0.5,1e-05,"\udc00\ud800\u12"],"-":-1}`, `["\ud800\udc00\udbff\udfff\ud800x\ud800\u0041\ud800\\",-0]`} {
 		for k := 0; k <= len(t); k++ {
-			c.Run("C01.compact_raw", Args(t[:k]), "C01.compact_raw", "", "compact-raw/truncation")
+			c.Run("C01.compact_raw", Args(t[:k]), "C01.compact_raw", "C01.prop.compact_safe", "compact-raw/truncation")
 		}
 		c.Count("compact_raw: all truncations of a branch-covering text")
 	}
@@ -820,7 +820,7 @@ func genC01(c *Ctx) {
 		if r.Intn(2) == 0 {
 			m = append([]byte{'"'}, m...)
 		}
-		if string(c.Run("C01.compact_raw", [][]byte{m}, "C01.compact_raw", "", "compact-raw/steered")) == "PANIC" {
+		if string(c.Run("C01.compact_raw", [][]byte{m}, "C01.compact_raw", "C01.prop.compact_safe", "compact-raw/steered")) == "PANIC" {
 			c.Count("compact_raw: panics (steered random bytes)")
 		} else {
 			c.Count("compact_raw: returns (steered random bytes)")
@@ -840,7 +840,7 @@ func genC01(c *Ctx) {
 			}
 		}
 		m = append(m, []byte(`\udc00"`)[:r.Intn(8)]...)
-		c.Run("C01.compact_raw", [][]byte{m}, "C01.compact_raw", "", "compact-raw/hex-garbage")
+		c.Run("C01.compact_raw", [][]byte{m}, "C01.compact_raw", "C01.prop.compact_safe", "compact-raw/hex-garbage")
 		c.Count("compact_raw: arbitrary bytes in the escape")
 	}
 	// all texts (valid or not) over the alphabet up to length 4 (quick) / 5 (thorough)
